@@ -235,3 +235,54 @@ def _check(case, obs, base, FlowCal, xl):
                         why = 'counts/centres differ for scale %s (sum %r, events within the edges %r)' % (sc, counts.sum(), inside)
                 obs.claim('hist', ok, lambda: 'row %s channel %s (%r): %s' % (row['id'], ch, unit, why))
         obs.label('hist_sheet')
+
+
+# ----------------------------------------------------------------------------------------------
+# curated experiments: combinations the random search reaches rarely within the quick budget
+# ----------------------------------------------------------------------------------------------
+
+def curated():
+    lad = lambda k: ', '.join(str(v * k) for v in xlgen.LADDER)
+    i1 = dict(id='I1', fsc='FSC-H', ssc='SSC-H', fl=['FL1-H', 'FL2-H'], time='Time')
+    i2 = dict(id='I2', fsc='FSC-A', ssc='SSC-A', fl=['Pacific Blue-A', 'GFP'], time='TIME')
+    cells = lambda inst, seed, dt='I', res=1024: dict(kind='cells', instrument=inst, seed=seed, n=600, datatype=dt, res=res)
+    out = []
+    # the same file analysed with two different bead rows (and once without calibration), same units
+    out.append(dict(instruments=[i1],
+                    files={'beads1.fcs': dict(kind='beads', instrument='I1', seed=31), 'beads2.fcs': dict(kind='beads', instrument='I1', seed=32),
+                           'c1.fcs': cells('I1', 33), 'c2.fcs': cells('I1', 34, 'F')},
+                    beads=[dict(id='B1', instrument='I1', file='beads1.fcs', gate_fraction=0.3, clustering=['FL1-H'], mef={'FL1-H': lad(1)}),
+                           dict(id='B2', instrument='I1', file='beads2.fcs', gate_fraction=0.3, clustering=['FL1-H', 'FL2-H'],
+                                mef={'FL1-H': lad(2), 'FL2-H': lad(3)})],
+                    samples=[dict(id='S1', instrument='I1', beads='B1', file='c1.fcs', gate_fraction=0.5, units={'FL1-H': 'MEF', 'FL2-H': 'RFI'}),
+                             dict(id='S2', instrument='I1', beads='B2', file='c1.fcs', gate_fraction=0.5, units={'FL1-H': 'MEF', 'FL2-H': 'RFI'}),
+                             dict(id='S3', instrument='I1', beads='B2', file='c1.fcs', gate_fraction=0.5, units={'FL1-H': 'mef', 'FL2-H': ' MEF '}),
+                             dict(id='S4', instrument='I1', beads=None, file='c2.fcs', gate_fraction=1.0, units={'FL1-H': 'a.u.', 'FL2-H': 'Channel'}),
+                             dict(id='S5', instrument='I1', beads=None, file='c2.fcs', gate_fraction=0.2, units={'FL2-H': 'au'})],
+                    np_seed=9, via_workbook=False, hist=True))
+    # two instruments, names with blanks, different resolutions, workbook round trip
+    out.append(dict(instruments=[i1, i2],
+                    files={'beads1.fcs': dict(kind='beads', instrument='I2', seed=41), 'c1.fcs': cells('I2', 42, 'I', 4096),
+                           'c2.fcs': cells('I1', 43, 'I', 256), 'c3.fcs': cells('I2', 44, 'F')},
+                    beads=[dict(id='B1', instrument='I2', file='beads1.fcs', gate_fraction=0.5, clustering=['Pacific Blue-A', 'GFP'],
+                                mef={'Pacific Blue-A': lad(1)})],
+                    samples=[dict(id='S1', instrument='I2', beads='B1', file='c1.fcs', gate_fraction=0.85, units={'Pacific Blue-A': 'MEF', 'GFP': 'Channel'}),
+                             dict(id='S2', instrument='I1', beads=None, file='c2.fcs', gate_fraction=0.5, units={'FL1-H': 'Channel', 'FL2-H': 'rfi'}),
+                             dict(id='S3', instrument='I2', beads='B1', file='c3.fcs', gate_fraction=0.5, units={'GFP': 'A.U.'})],
+                    np_seed=10, via_workbook=True, hist=True))
+    return out
+
+
+def exhaustive_jobs(tier):
+    return curated()
+
+
+def run_job(job):
+    from pbt.runner import Obs
+    obs = Obs()
+    try:
+        check(job, obs)
+    except Exception as e:
+        obs.failures.append(('crash', 'curated experiment: %s: %s' % (type(e).__name__, e)))
+    return dict(evaluations=1, nontrivial=1, failures=[(t, m, job) for t, m in obs.failures[:5]], labels={'curated_experiment': 1},
+                claims=dict(obs.claims), samples=[], complete=True)
